@@ -168,6 +168,15 @@ def run(ck):
     for rng in REQUIRED_V4.values():
         for k, (lo, hi) in enumerate(rng):
             consts[k] |= {lo, hi, max(0, lo - 1), min(255, hi + 1)}
+    # an octet that takes part in bit arithmetic is not decided by interval cells: enumerate it completely
+    for i in v4.walk():
+        if v4.nodes[i]['k'] == 'BinaryOperator' and v4.nodes[i].get('op') in ('&', '|', '^', '>>', '<<', '%', '/', '+', '-'):
+            for j in v4.walk(i):
+                jn = v4.nodes[j]
+                if jn['k'] == 'CXXOperatorCallExpr' and jn.get('op') == '[]':
+                    idx = const_value(v4, v4.kids(j)[2])
+                    if idx is not None and idx < 4:
+                        consts[idx] |= set(range(256))
     cells = 0
     try:
         for name, rng in sorted(REQUIRED_V4.items()):
@@ -275,8 +284,11 @@ def run(ck):
         e = rf.strip(rf.nodes[pc[0]]['init'])
         if rf.nodes[e].get('op') == '||':
             l, r = rf.kids(e)
-            lsrc = [j for x in origin_chain(rf, l) for j in rf.walk(x)]
-            okp = any(rf.nodes[j].get('n') == 'On' and rf.nodes[j].get('dk') == 'EnumConstant' for j in lsrc) and \
+            last = list(origin_chain(rf, l))[-1]
+            cl = comparison(rf, last)
+            exact_on = bool(cl) and cl[0] == '==' and \
+                {rf.nodes[rf.strip(cl[1])].get('n'), rf.nodes[rf.strip(cl[2])].get('n')} == {'advertise_auto_mode', 'On'}
+            okp = exact_on and \
                 rf.nodes[rf.strip(r)].get('op') == '!' and any(rf.nodes[j].get('m') == CFG + 'auto_advertise_conflict' for j in rf.walk(r))
     ck.ob('C34.pub', 'C34.pub/refresh/promote-definition', okp, rf.loc(), 'promote_candidates is (mode == On) || !auto_advertise_conflict')
     # candidates passed to append_endpoint come from the filtered discovery result
